@@ -991,6 +991,11 @@ impl<T, S: Status> Drop for Drain<'_, T, S> {
                 unsafe { slot.data.assume_init_drop() };
             }
         }
+        // `RawTable::drain()` accounts all slots as free, so the remaining
+        // slots (possibly tombstones) need to be marked as such.
+        for slot in &mut self.iter {
+            slot.status = S::FREE;
+        }
     }
 }
 
